@@ -23,9 +23,9 @@ func (c Color) Luminosity() (l uint8) {
 
 func (c Color) MulDiv(multiplicand, divisor uint8) (m Color) {
 	r, g, b := c.ToRGB()
-	mr := uint8((uint16(r) * uint16(multiplicand)) / uint16(divisor))
-	mg := uint8((uint16(g) * uint16(multiplicand)) / uint16(divisor))
-	mb := uint8((uint16(b) * uint16(multiplicand)) / uint16(divisor))
+	mr := (uint16(r) * uint16(multiplicand)) / uint16(divisor)
+	mg := (uint16(g) * uint16(multiplicand)) / uint16(divisor)
+	mb := (uint16(b) * uint16(multiplicand)) / uint16(divisor)
 	if mr > 31 {
 		mr = 31
 	}
@@ -35,5 +35,5 @@ func (c Color) MulDiv(multiplicand, divisor uint8) (m Color) {
 	if mb > 31 {
 		mb = 31
 	}
-	return ToColor15(mr, mg, mb)
+	return ToColor15(uint8(mr), uint8(mg), uint8(mb))
 }
